@@ -74,7 +74,7 @@ def same_json(a, b):
     return _key(a) == _key(b)
 
 
-def randomize(seed):
+def randomize(seed, keep=()):
     """Thorough tier: replace the representative of every class whose CONTENT no rule inspects by a random member of the
     same class (ids, strings, big integers, floats, nested payloads), keeping the relations the specification relies on
     (distinctness, "1" next to 1, truthiness, JSON type, key 'a' of the named-params object)."""
@@ -110,7 +110,9 @@ def randomize(seed):
         's_esc': rstr(rnd.randint(3, 20)) + '"\\\n\u0000\U0001F600',
         'a_deep': [1, [rjson(), [rjson()]]],
     }
-    new['s_1'] = str(new['i1'])
+    for k in keep:          # representatives the caller's fixtures depend on (e.g. an error class registered for the code 1)
+        new.pop(k, None)
+    new['s_1'] = str(new.get('i1', CONCRETE['i1']))
     od = {'a': rjson(1) or {'k': 1}, 'z': rjson(1)}
     new['o_deep'] = od
     CONCRETE.update(new)
